@@ -307,6 +307,17 @@ def run(e: Engine, rep: Report):
              'apart character by character and reaches the MAIL / RCPT '
              'callback instead of being refused as malformed')
     r721(e, rep)
+    from . import c09 as _c09
+    common.reuse(
+        e, rep, lambda e_, sub: _c09.g1(e_, sub, 'G1'), 'R7.22',
+        '= C09-G1: the bytes the client has sent and the server has not yet '
+        'read are held by IO.recv_buffer, and only IO and the two DATA '
+        'hand-over methods change it - a command handler that empties it '
+        '(STARTTLS "hardening" done before the verdict is known) throws '
+        'away command lines that are owed a reply: with a refused STARTTLS '
+        'the pipelined commands get no answer and no callback, and the '
+        'session ends without 221', only={'G1'},
+        suffix=' (the command lines in it never get their reply)')
     rep.floor('R7.1', 10, 'callback sites')
     rep.floor('R7.3', 12, 'command handlers')
     rep.floor('R7.4', 10, 'mutable reply sends')
